@@ -68,3 +68,8 @@ add("C05", "E1",
     "Every tree up to the stated size over + - * / ^, unary +/-, the 18 differentiable functions and the operators without a rule; FlatEx::parse, DeepEx::parse, to_deepex, from_deepex provenances; first order everywhere, second order (all index pairs) for the small sizes. On the rational fragment the derivative expression is evaluated in exact arithmetic on a rational grid and must equal the exact derivative; elsewhere a violation is a difference beyond 16x the summed first-order rounding bounds at a conclusive point (>= 3 of 8 fixed points needed). Operators without a rule above the variable must make partial() fail.",
     "Trusted: jet rules in harness/src/numty.rs, libm accuracy (2-4 ulp), num::BigRational. Points outside the domain / with large bounds are inconclusive and counted.",
     "DESIGN.md §3 C05")
+add("C09", "E2",
+    "explicit-state exploration (stateright BFS) of differentiation histories on real flat/deep expressions: state = (base expression, form, index history), dedup on the structural dump, invariants evaluated in every state",
+    "From every enumerated base expression (flat and deep) all index histories of length 0..4 over 0..n_vars+1 are explored; in every state the variable list equals the antiderivative's and the same slice evaluates; partial_iter / partial_iter_relaxed of the history equals the sequential partials, partial_nth equals repeated partial, order zero is the identity, mixed partials agree in either order (structurally, exactly over Q, or within rounding bounds); out-of-range indices are rejected by partial, partial_nth and partial_iter before a single number is constructed.",
+    "Trusted: stateright's visited-set bookkeeping; work is observed through a counter on From<u8>/From<f32> of the harness data types.",
+    "DESIGN.md §3 C09")
